@@ -253,7 +253,7 @@ Definition version_lt_11 (v : bytes) : bool :=
 (* rules 3-7 on the fields (rules 1, 2 are applied by the response function); None: the framing is invalid *)
 Definition fields_body_length (is_request : bool) (version : bytes) (fs : list field) : option body_len :=
   match field_values r_te fs with
-  | _ :: _ as tes =>
+  | (_ :: _) as tes =>
       (* rule 3; 6.1: Transfer-Encoding in a message of a version before 1.1 is faulty framing *)
       if version_lt_11 version then None
       else match coding_names (list_elements tes) with
@@ -265,7 +265,7 @@ Definition fields_body_length (is_request : bool) (version : bytes) (fs : list f
            end
   | [] =>
       match field_values r_cl fs with
-      | _ :: _ as cls =>
+      | (_ :: _) as cls =>
           (* rules 4, 5 *)
           match list_elements cls with
           | [] => None
